@@ -112,6 +112,11 @@ func specMentions(p *Prog, fs *FuncSpec, prop string) bool {
 			return true
 		}
 	}
+	for _, r := range fs.Refines {
+		if len(r.Props) > 0 && hasProp(r.Props, prop) {
+			return true
+		}
+	}
 	return false
 }
 
